@@ -89,6 +89,9 @@ JudgeGraphOp(r) ==
        \cup C(\A u \in 1..r.n : \A v \in 1..r.n : Bit(r.rows[u], v - 1) = Bit(r.rows[v], u - 1), "simple")
        \cup C(r.kind # "lc" \/ r.twice = r.src, "involution")
        \cup C(r.kind # "lc" \/ r.id2 = exp, "lc-copy")
+       (* the copying variant local_complemented(): the same graph as the in-place one, read through its adjacency rows (diagonal included), *)
+       (* and it leaves the graph it was called on untouched                                                                                *)
+       \cup C(r.kind # "lc" \/ (r.rows2 = Rows(r.n, exp) /\ r.rowskept = r.srcrows), "lc-copy")
 
 (***************************************************************************)
 (* Grouping codecs of linear_index (C19).  A grouping of shape `sizes` is  *)
@@ -307,12 +310,24 @@ JudgeRequest(r) ==
                         THEN C(valid, "prepared-nonstabilizer")
                              \cup C(~valid \/ (\A i \in 1..Len(r.given) : r.given[i] \in SignedSpan(ApplySeqTab(r.gates, z0))), "wrong-state")
                         ELSE C(\A i \in 1..Len(r.given) : ZType(ApplySeq(r.gates, r.given[i])), "not-diagonal")))
+(* synth: the synthesis helper synth_circuit_from_stabilizers(list, allow_redundant, allow_underconstrained, invert) called directly with ANY number  *)
+(* of signed Paulis.  Whatever the flags: a returned circuit is correct for the given operators - the state it prepares (the state its inverse       *)
+(* prepares, if invert) is stabilised by every one of them.  Raising is always acceptable.                                                          *)
+JudgeSynthFlags(r) ==
+   LET z0 == [i \in 1..r.n |-> ZOn(i - 1)]
+       wf == \A i \in 1..Len(r.gates) : WellFormed(r.gates[i], r.n)
+   IN  IF r.outcome = "raise" THEN {}
+       ELSE C(wf, "unknown-gate")
+            \cup (IF ~wf THEN {}
+                  ELSE LET G == SignedSpan(ApplySeqTab(IF r.invert = 1 THEN Inverse(r.gates) ELSE r.gates, z0))
+                       IN  C(\A i \in 1..Len(r.given) : r.given[i] \in G, "wrong-state"))
 (* config: one entry point called with a (qubit count, connectivity name) pair, advertised or not *)
 JudgeConfig(r) == C((r.outcome = "return") = IsSupported(r.n, r.name), "config-gate")
 JudgeAvailable(r) == C({<<r.list[i][1], r.list[i][2]>> : i \in 1..Len(r.list)} = Supported /\ Len(r.list) = Cardinality(Supported), "available")
 
 Judge(r) == CASE r.op = "classify" -> JudgeClassify(r)
               [] r.op = "request" -> JudgeRequest(r)
+              [] r.op = "synthflags" -> JudgeSynthFlags(r)
               [] r.op = "config" -> JudgeConfig(r)
               [] r.op = "available" -> JudgeAvailable(r)
               [] r.op = "measure" -> {}
